@@ -22,11 +22,11 @@ NATIVE_OK = {"C04"}
 PROP_MODULES = {
     "C01": [("C01Prime", r"add_spec|sub_spec|mul_spec|neg_spec|mul_no_overflow|element_spec|fromSigned|beq_iff|repr_unique|isZero_iff|isOne_iff|zero_one_repr|primeOps_lawful|primeLawful|primeOps_ofNat|primeOps_ofInt|primeOps_char_card"),
             ("C01Bin", r"^(?!.*(pow|inv|bitProd|bitQuoRem|trace)).*$"), ("C01Ext", r"^(?!.*(pow|inv|trace|log)).*$"), ("C01", r".*"),
-            ("CodeTies", r"reduce_tie"), ("CodeTies2", r"prime_add|prime_sub|prime_prod|prime_setneg|prime_fromSigned|bin_add|bin_prod")],
+            ("CodeTies", r"reduce_tie"), ("CodeTies2", r"prime_add|prime_sub|prime_prod|prime_setneg|prime_fromSigned|bin_add|bin_prod"), ("CodeTies7", r"^bin_|^prime_")],
     "C02": [("C01Prime", r"inv_|invLoop|pow|powLoop"), ("C01Bin", r"pow|inv|bitProd|bitQuoRem|trace"), ("C02", r".*"),
             ("C01Ext", r"pow|inv|trace"), ("CodeTies", r"bitProd_tie|bitQuoRem_tie"), ("CodeTies2", r"prime_inv"), ("CodeTies3", r".*"), ("CodeTies4", r"pow|trace")],
     "C04": [("C04", r".*"), ("C04Full", r".*")],
-    "C05": [("C05", r".*"), ("CodeTies6", r".*")],
+    "C05": [("C05", r".*"), ("CodeTies6", r".*"), ("CodeTies7", r"degrees|nTerms_tie|isMonomial")],
     "C08": [("C08", r".*"), ("CodeTies", r"addDegs_tie|subtractDegs_tie")],
     "C14": [("C14", r".*"), ("C14Full", r".*")],
     "C11": [("C11", r".*"), ("C11Full", r".*"), ("C11Full2", r".*")],
@@ -37,7 +37,7 @@ PROP_MODULES = {
     "C03": [("C03", r".*"), ("C01", r"define_lawful|define_any_lawful|define_elements|elements_ext|descOK"), ("C01Prime", r"multGenerator|isGenerator"), ("GenTies", r"DefineConds|ffDefineCases"), ("CodeTies2", r"fpp_"), ("CodeTies5", r"multGenerator")],
     "C15": [("C15", r".*"), ("C15Full", r".*"), ("C15FullDefine", r".*_define$|.*fieldRoundTripB$|C15_full_bounded(_partial)?$"), ("GenTies", r"Pattern|Regex|XOrY|regex|VarName")],
     "C16": [("C16", r".*"), ("C16Static", r".*")],
-    "C17": [("C17", r".*"), ("C17Names", r".*"), ("C17Extra", r".*"), ("C17ExtraU", r".*"), ("GenTies", r"kindNames"), ("C15", r"parse_total"), ("ErrTies", r".*")],
+    "C17": [("C17", r".*"), ("C17Names", r".*"), ("C17Extra", r".*"), ("C17ExtraU", r".*"), ("GenTies", r"kindNames"), ("C15", r"parse_total"), ("ErrTies", r".*"), ("ErrTies2", r".*")],
     "C18": [("C18", r".*"), ("C01Prime", r"lookup|computeTables|estimateMemory"), ("GenTies", r"MaxMem|EstimateMemory"),
             ("CodeTies", r"estimateMemory_tie"), ("C01Ext", r"log"), ("C18Tables", r".*"), ("C18Tables2", r".*"), ("C18Tables3", r".*"), ("C18Tables4", r".*"), ("C18Tables5", r".*"), ("CodeTies5", r"lookup|newTable")],
 }
